@@ -205,6 +205,10 @@ GoalEdges(C, Nodes, P) ==
   UNION {{<<d, <<p, v>>>> : d \in Deps(C, Nodes, p), v \in Outcomes} : p \in P}
 GoalGraph(C, Nodes, P) == [goals |-> GoalsOf(P), roots |-> GoalRoots(C, Nodes, P),
                            edges |-> GoalEdges(C, Nodes, P)]
+\* the same edges from one DepsAll pass (Graphs.tla checks GoalEdgesFast = GoalEdges)
+GoalEdgesFast(C, Nodes, P) ==
+  UNION {{<<<<t[2], t[3]>>, <<t[1], v>>>> : v \in Outcomes} : t \in {x \in DepsAll(C, Nodes) : x[1] \in P}}
+GoalRootsFast(C, Nodes, P) == (RootDependentSet(C, Nodes) \cap P) \X Outcomes
 DependenciesResolve(C, Nodes, P) == \A p \in P : \A d \in Deps(C, Nodes, p) : d[1] \in P
 
 \* goals reachable from the roots of a goal graph given as (roots, edges over arbitrary goal ids)
